@@ -228,7 +228,7 @@ def job_stack3(spec):
     idents = [idents[k] for k in perm]
     if model_arg == "icode":
         model_arg = None
-    models = [1, 1, 2] if model_arg is not None else [1, 1, 1]
+    models = [model_arg, model_arg, model_arg + 1] if model_arg is not None else [1, 1, 1]
     zs = [eng.const(0), g1, g1 + g2]
 
     def mk(k):
@@ -297,7 +297,7 @@ w = {w!r}
 idents = [("A", 5, None), ("A", 6, None), ("B", 1, None)] if w["model"] != "icode" else [("A", 6, None), ("A", 6, "A"), ("A", 6, "B")]
 idents = [idents[k] for k in w["perm"]]
 if w["model"] == "icode": w["model"] = None
-models = [1, 1, 2] if w["model"] is not None else [1, 1, 1]
+models = [w["model"], w["model"], w["model"] + 1] if w["model"] is not None else [1, 1, 1]
 zs = [0.0, w["g1"], w["g1"] + w["g2"]]
 def mk(k):
     auth = ResidueAuth(idents[k][0], idents[k][1], idents[k][2], "G")
@@ -396,7 +396,7 @@ def run(rep, tier):
     from vlib.par import pmap, Crashed
     specs = [("saenger", (0, 2)), ("saenger", (3, 9)), ("saenger", (10, 13)), ("saenger", (14, 17)), ("lists", ("bph-G", "fwd")), ("lists", ("bph-C", "fwd")), ("lists", ("bph-G3", "fwd")), ("lists", ("bph-A", "rev")), ("lists", ("GC", "fwd")),
              ("lists", ("AU-rev", "rev")), ("lists", ("AG-sugar", "fwd")),
-             ("stack3", ((0, 1, 2), None)), ("stack3", ((2, 0, 1), None)), ("stack3", ((1, 0, 2), 1)),
+             ("stack3", ((0, 1, 2), None)), ("stack3", ((2, 0, 1), None)), ("stack3", ((1, 0, 2), 1)), ("stack3", ((0, 1, 2), 0)),
              ("stack3", ((1, 0, 2), "icode")), ("stack3", ((2, 1, 0), "icode"))]
     if tier != "quick":
         specs += [("lists", ("bph-G", "rev")), ("lists", ("bph-C", "rev")), ("lists", ("bph-A", "fwd")), ("lists", ("GG-hoog", "fwd")),
